@@ -218,6 +218,48 @@ theorem option_token_after_dashes (pre post : List Str) (t : Str)
     t ∉ optionTokens (pre ++ ['-', '-'] :: post) := by
   rw [option_tokens_cut pre post h]; exact ht
 
+/-! ## hypothesis-free forms
+
+`string_argv_same` assumes `tokenize s = .ok ts`, which `tokenize_total` proves; `option_tokens_cut`
+/ `option_tokens_all` assume that `--` is not among `pre`, which holds for `pre = optionTokens ts` of
+ANY token list (`option_tokens_prefix`), and every token list splits that way. -/
+
+/-- `string_argv_same` with its hypothesis discharged by `tokenize_total`: for EVERY string the
+string form and the argv form of its tokens are the same raw args. -/
+theorem string_argv_same_total (s script : Str) :
+    ∃ ts a b, tokenize s = .ok ts ∧ stringArgs s = .ok a ∧ argvArgs (script :: ts) = .ok b ∧
+      a.tokens = ts ∧ b.tokens = ts ∧ a.optionTokens = b.optionTokens := by
+  obtain ⟨ts, h⟩ := tokenize_total s
+  obtain ⟨a, b, h1, h2, h3, h4, h5⟩ := string_argv_same s script ts h
+  exact ⟨ts, a, b, h, h1, h2, h3, h4, h5⟩
+
+/-- Every token list is its option tokens, followed - if there is a `--` at all - by the first
+`--` and the rest. -/
+theorem option_tokens_split (ts : List Str) :
+    ts = optionTokens ts ∨ ∃ post, ts = optionTokens ts ++ ['-', '-'] :: post := by
+  induction ts with
+  | nil => left; rfl
+  | cons t ts ih =>
+    by_cases ht : t = ['-', '-']
+    · right; subst ht; exact ⟨ts, by simp [optionTokens, optionsEnd]⟩
+    · have hb : (t != optionsEnd) = true := by simp [optionsEnd, ht]
+      have hc : optionTokens (t :: ts) = t :: optionTokens ts := by
+        simp only [optionTokens, List.takeWhile_cons, hb, if_true]
+      rw [hc]
+      rcases ih with ih | ⟨post, ih⟩
+      · left; exact congrArg (t :: ·) ih
+      · right; exact ⟨post, by rw [List.cons_append]; exact congrArg (t :: ·) ih⟩
+
+/-- taking option tokens twice changes nothing -/
+theorem option_tokens_idem (ts : List Str) : optionTokens (optionTokens ts) = optionTokens ts :=
+  option_tokens_all _ (option_tokens_prefix ts).1
+
+/-- `option_tokens_cut` without a hypothesis: whatever follows the first `--` of ANY token list,
+the option tokens are the same. -/
+theorem option_tokens_tail_irrelevant (ts post : List Str) :
+    optionTokens (optionTokens ts ++ ['-', '-'] :: post) = optionTokens ts :=
+  option_tokens_cut _ post (option_tokens_prefix ts).1
+
 /-! ## non-vacuity -/
 
 /-- `a 'b c'  "d\"e"` → `a`, `b c`, `d"e` (computed by the model) -/
@@ -256,5 +298,43 @@ example : runs ['a', ' ', 'b', '　', ' ', 'c'] = [['a'], ['b'], ['c']] ∧
 
 /-- option tokens stop at `--` even when an option-looking token follows it -/
 example : optionTokens [['-', 'v'], ['-', '-'], ['-', 'q']] = [['-', 'v']] := by decide
+
+/-! every theorem with hypotheses, applied to a concrete instance (all hypotheses discharged) -/
+
+example : toks 100 ['a', ' ', '"', 'b', '"'] = tokenize ['a', ' ', '"', 'b', '"'] :=
+  tokenize_fuel_independent _ 100 (by decide)
+
+example : tokenize ('"' :: (escq ['i', 't', '\'', 's', ' ', '"'] ++ ['"'])) = .ok [['i', 't', '\'', 's', ' ', '"']] :=
+  quote_roundtrip_single '"' (by decide) _ (by decide)
+
+example : tokenize ('\'' :: (escq ['a', '\\', 'b'] ++ ['\''])) = .ok [['a', '\\', 'b']] :=
+  (quote_roundtrip_iff '\'' (by decide) _).2 (by decide)
+
+example : ∃ a b, stringArgs ['x', ' ', '-', '-', ' ', '-', 'v'] = .ok a ∧
+    argvArgs (['p'] :: [['x'], ['-', '-'], ['-', 'v']]) = .ok b ∧ a.tokens = [['x'], ['-', '-'], ['-', 'v']] ∧
+    b.tokens = [['x'], ['-', '-'], ['-', 'v']] ∧ a.optionTokens = b.optionTokens :=
+  string_argv_same _ ['p'] _ (by decide)
+
+example : ∃ a b, stringArgs (render [⟨[], .bare, ['x']⟩, ⟨[' '], .single, ['-', '-']⟩, ⟨['\t'], .double, ['a', ' ', 'b']⟩] ++ [' ']) = .ok a ∧
+    argvArgs (['p'] :: [['x'], ['-', '-'], ['a', ' ', 'b']]) = .ok b ∧
+    a.tokens = b.tokens ∧ a.optionTokens = b.optionTokens :=
+  quoted_string_is_argv [⟨[], .bare, ['x']⟩, ⟨[' '], .single, ['-', '-']⟩, ⟨['\t'], .double, ['a', ' ', 'b']⟩]
+    [' '] ['p'] (by decide) (by decide)
+
+example : tokenize [' ', 'a', 'b', '\t', ' ', '-', 'c', ' '] = .ok (runs [' ', 'a', 'b', '\t', ' ', '-', 'c', ' ']) :=
+  unquoted_split _ (by decide)
+
+example : ['-', 'c'] ≠ [] ∧ ['-', 'c'].all (fun c => !isSpace c) = true :=
+  runs_nonempty_nospace [' ', 'a', 'b', '\t', ' ', '-', 'c', ' '] ['-', 'c']
+    (by simp [runs, isSpace, Clikit.Gen.C08.spaceRanges])
+
+example : optionTokens ([['x'], ['-', 'q']] ++ ['-', '-'] :: [['-', 'v'], ['-', '-']]) = [['x'], ['-', 'q']] :=
+  option_tokens_cut _ _ (by decide)
+
+example : optionTokens [['x'], ['-', 'q'], ['-']] = [['x'], ['-', 'q'], ['-']] :=
+  option_tokens_all _ (by decide)
+
+example : ['-', 'v'] ∉ optionTokens ([['x'], ['-', 'q']] ++ ['-', '-'] :: [['-', 'v']]) :=
+  option_token_after_dashes _ _ _ (by decide) (by decide)
 
 end Clikit.Props.C08
